@@ -75,11 +75,23 @@ func (m FileMatcher) Match(file *ast.File, d data.Data) (data.Data, bool) {
 		return d, false
 	}
 
-	d, ok := m.Imports.Match(file, d)
-	if !ok {
-		return d, ok
-	}
+	// A path that the file imports more than once can match an import of
+	// the patch in more than one way; when the name is a metavariable, the
+	// code has to be looked for under each of these names.
+	var (
+		found data.Data
+		ok    bool
+	)
+	m.Imports.matchEach(file, d, func(d data.Data) bool {
+		found, ok = m.matchNodes(file, d)
+		return ok
+	})
+	return found, ok
+}
 
+// matchNodes looks for the code of the change, given the data of its
+// matched imports.
+func (m FileMatcher) matchNodes(file *ast.File, d data.Data) (data.Data, bool) {
 	// To match the body, we use astutil.Apply which traverses the AST and
 	// provides a replaceable pointer to each node so that we can rewrite
 	// the AST in-place.
